@@ -57,3 +57,17 @@ Example C18_ex_64 :
   map (fun m => length (msg_entries m)) (traffic_messages items) = [64]%nat /\
   Forall (fun e => snd e = 70000 mod 65536) (flat_map msg_entries (traffic_messages items)).
 Proof. vm_compute. split; [reflexivity|]. repeat constructor. Qed.
+
+(* every interval starts from empty counters, whether or not anybody was listening to the report: whatever
+   send_traffic forwarded (to nobody, to healthy or to failing subscribers), if it returns, the interval's counter
+   list is empty - counts of an interval can never resurface in a later report *)
+Theorem C18_interval_starts_empty : forall cfg fuel now s u s',
+  send_traffic cfg fuel now s = Ok u s' -> traffic s' = [].
+Proof.
+  intros cfg fuel now s u s' H. unfold send_traffic in H. unfold bind at 1 in H. unfold get in H. cbv zeta in H.
+  unfold bind at 1 in H. unfold modify at 1 in H.
+  unfold bind at 1 in H. destruct (mlog cfg fuel 10 _) as [u1 s1|e1 s1]; [|discriminate].
+  unfold bind at 1 in H. unfold get in H. unfold bind at 1 in H.
+  destruct (mapM_ _ _ s1) as [u2 s2|e2 s2]; [|discriminate].
+  unfold bind, modify in H. inversion H. reflexivity.
+Qed.
